@@ -30,6 +30,25 @@ CHECKS = {
  "C14": ("bounded exhaustive fault enumeration: every accepted seed (pp fixed points) x every token boundary x 3 bad bytes, x every single bracket / block keyword deleted, the same through `include, and 8 pp programs x every line start x 9 lexical faults",
          "Every (program, position, fault) of the stated finite space is executed; rejection, error variant, file and position are checked on each.",
          "Trusted: the harness; balancedness of brackets and block keywords in every sentence of the language; the end of an escaped identifier is not a boundary."),
+
+ "C03": ("bounded exhaustive enumeration of structured preprocessor programs (origin profile: all sequences <= n of a 29-item alphabet; plus the C04/C05 profiles), each interpreted by a reference preprocessor that yields the provenance of every output token; every output byte is probed with origin()",
+         "All programs of the stated finite space are run on the real preprocessor; every model prediction (token sequence with provenance) is replayed against the implementation, and the origin of every byte is compared with the model's provenance.",
+         "Trusted: reference preprocessor models/ppref.rs and lexer models/lexref.rs; white space is only required to map to an equal byte of the same file with advancing offsets. Findings matched by emulation switches of the model."),
+ "C04": ("bounded exhaustive enumeration of conditional-compilation programs (chains over {A, B, __LINE__} with 0-2 `elsif, optional `else, nesting, branch bodies with define/undef/undefined usage/missing include/comments; x 5 initial tables x layouts) against a reference preprocessor",
+         "Every program of the stated finite space is interpreted by the model and run on the implementation; token sequences and errors are compared on all of them.",
+         "Trusted: models/ppref.rs (IEEE 22.6 first-true-branch semantics), models/lexref.rs. The `elsif/predefined finding is matched by re-running the model with exactly that defect."),
+ "C05": ("bounded exhaustive enumeration of define/usage programs (6 formal lists x all bodies <= n over a 13-token alphabet x 10 actual-argument forms x 3 definitions of a nested macro, plus 22 hand-picked shapes) against a reference preprocessor implementing IEEE 22.5.1",
+         "Every program of the stated finite space is interpreted by the model and run on the implementation; token sequences and error variants with payloads are compared on all of them.",
+         "Trusted: models/ppref.rs (substitution, paste, `\", nested expansion at point of use, limit 64), models/lexref.rs. The model abstains where an expansion does not lex; surplus actuals are outside the statement."),
+ "C06": ("exhaustive enumeration of all strings <= n over a 12-character alphabet and all sequences <= n of 16 lexical pieces, classified by a reference lexer (7-state DFA); identity + per-byte origin identity on directive-free well-formed ones; every successful output (also of all token soups with directives) fed back once",
+         "The finite spaces are enumerated completely; the reference lexer's verdict is replayed against the implementation on every member.",
+         "Trusted: models/lexref.rs. Three known findings (duplicated trivia after literals, directive after literal, glued expansion) are matched by exact emulation / input shape."),
+ "C11": ("bounded exhaustive enumeration: returned define table vs the reference preprocessor's table on all C04/C05 programs, and all ordered pairs of a sub-profile: preprocess(f2, defines = preprocess(f1).defines) against preprocess(f1 ++ f2)",
+         "All programs and all ordered pairs of the stated finite spaces are executed; tables, texts and errors are compared on each.",
+         "Trusted: models/ppref.rs for part (a); part (b) is a differential relation on the implementation alone. SV_COV_* constants left aside, bodies compared trimmed."),
+ "C18": ("bounded exhaustive enumeration: every C04/C05 program and every sequence <= n of 13 pieces in which comments are the only separators; each run with strip_comments off and on, differential oracle on tokens, table and error plus absence of comments",
+         "All inputs of the stated finite spaces are run twice and compared.",
+         "Trusted: models/lexref.rs to tokenise outputs. Three known findings matched by signatures (fused tokens, comment attached to a literal, directive after a literal)."),
 }
 PENDING = {}
 
